@@ -163,6 +163,13 @@ int main() {
         double scale = parse_q(a[0]);
         Simplex s = parse_simplex(a[1]);
         r = vecq(tri->barycenter(s, scale));
+      } else if (w == "LB") {
+        // round trip: the barycenter of a simplex is located in that simplex
+        double scale = parse_q(a[0]);
+        Simplex s = parse_simplex(a[1]);
+        Eigen::VectorXd b = tri->barycenter(s, scale);
+        std::vector<double> p(b.data(), b.data() + b.size());
+        r = sstr(tri->locate_point(p, scale));
       } else if (w == "DIM") {
         r = std::to_string(tri->dimension());
       } else r = "NOSUCHOP";
